@@ -803,15 +803,76 @@ func checkPrimaryAgreement(w *World, r *Result) {
 		})
 	}
 	// createStmt: primary => serial PRIMARY KEY
+	// wherever the literal lives (createStmt under its isPrimary parameter, or a function of its own called for the
+	// primary column): it is reached exactly for the column whose index is Table.Primary()
 	cs := w.MustFunc("generator/sql.createStmt")
+	gtab := w.MustFunc("generator/sql.generateTable")
 	found := false
-	ast.Inspect(cs.Decl.Body, func(x ast.Node) bool {
-		if lit, ok := x.(*ast.BasicLit); ok && strings.Contains(lit.Value, "serial PRIMARY KEY") {
-			found = true
+	for _, cf := range calleeClosure(w, gtab, 2) {
+		if cf.Pkg != gtab.Pkg || cf.Decl.Body == nil {
+			continue
 		}
-		return true
-	})
-	r.cond(found, "AGR-C08p", cs.Name, "id column is `serial PRIMARY KEY`", fnPos(w, cs), "literal present under the isPrimary branch", "the primary column is no longer declared serial PRIMARY KEY")
+		ci := cf.Pkg.TypesInfo
+		ast.Inspect(cf.Decl.Body, func(x ast.Node) bool {
+			lit, ok := x.(*ast.BasicLit)
+			if !ok || !strings.Contains(lit.Value, "serial PRIMARY KEY") {
+				return true
+			}
+			isPrimaryCond := func(fn *FuncInfo, e ast.Expr) bool {
+				return e != nil && strings.Contains(es(e), ".Primary()")
+			}
+			// conditions inside the function
+			for _, c := range pathConds(cf.Decl, lit) {
+				if c.expr == nil || !c.truth {
+					continue
+				}
+				if isPrimaryCond(cf, c.expr) {
+					found = true
+				}
+				// a boolean parameter that the call site fills with the Primary comparison
+				if id := identOf(c.expr); id != nil {
+					if pi := paramIndex(cf, objOf(ci, id)); pi >= 0 {
+						ds, _ := defsThroughAny(w, cf, objOf(ci, id))
+						all := len(ds) > 0
+						for _, d := range ds {
+							if !isPrimaryCond(nil, d) {
+								all = false
+							}
+						}
+						if all {
+							found = true
+						}
+					}
+				}
+			}
+			// or every call of the function is made under the Primary comparison
+			if !found && cf != gtab {
+				sites, all := 0, true
+				ast.Inspect(gtab.Decl.Body, func(y ast.Node) bool {
+					call, ok := y.(*ast.CallExpr)
+					if !ok || calleeOf(gtab.Pkg.TypesInfo, call) != cf.Obj {
+						return true
+					}
+					sites++
+					under := false
+					for _, c := range pathConds(gtab.Decl, call) {
+						if c.expr != nil && c.truth && isPrimaryCond(gtab, c.expr) {
+							under = true
+						}
+					}
+					if !under {
+						all = false
+					}
+					return true
+				})
+				if sites > 0 && all {
+					found = true
+				}
+			}
+			return true
+		})
+	}
+	r.cond(found, "AGR-C08p", cs.Name, "id column is `serial PRIMARY KEY`", fnPos(w, cs), "the literal is reached for the column at Table.Primary()", "the primary column is no longer declared serial PRIMARY KEY (the literal is missing, or not tied to the column at Table.Primary())")
 }
 
 // checkTableIDThreshold (AGR-C08t): an ID type `Id<T>` / `<T>Id` names table T for every non-empty T:
